@@ -6,7 +6,10 @@ import (
 	"math/rand"
 	"os"
 	"path/filepath"
+	"runtime"
 	"sort"
+	"strconv"
+	"strings"
 	"sync"
 	"sync/atomic"
 	"time"
@@ -21,6 +24,28 @@ import (
 )
 
 func init() { scenarios["conc"] = scenarioConc }
+
+// gid is the id of the calling goroutine (harness only: the storage wrapper has no other way to learn which request
+// a storage call belongs to when all requests share one Witness, as they do in production).
+func gid() int64 {
+	var buf [64]byte
+	n := runtime.Stack(buf[:], false)
+	f := strings.Fields(string(buf[:n]))
+	if len(f) < 2 {
+		return -1
+	}
+	id, _ := strconv.ParseInt(f[1], 10, 64)
+	return id
+}
+
+var tidByG sync.Map // goroutine id -> thread (request) number of the running concurrent execution
+
+func curTid() int {
+	if v, ok := tidByG.Load(gid()); ok {
+		return v.(int)
+	}
+	return 0
+}
 
 // ---------------------------------------------------------------- controlled scheduler
 
@@ -96,6 +121,18 @@ func (s *sched) settled(tid int, d time.Duration) {
 // run drives n threads with the given choice list; returns the branching factors met, the order in which
 // threads were released (with the operation they were released into), and whether everything finished.
 func (s *sched) run(n int, choices []int, settle time.Duration) (factors []int, order []string, ok bool) {
+	return s.runWith(n, func(step int, enabled []int, _ map[int]string) int {
+		if step < len(choices) {
+			return choices[step] % len(enabled)
+		}
+		return 0
+	}, settle)
+}
+
+// chooser picks the index (into enabled) of the thread to release next.
+type chooser func(step int, enabled []int, ops map[int]string) int
+
+func (s *sched) runWith(n int, choose chooser, settle time.Duration) (factors []int, order []string, ok bool) {
 	// before the first choice every thread has to reach its first storage call (or finish without one)
 	for t := 0; t < n; t++ {
 		s.settled(t, 500*time.Millisecond)
@@ -119,9 +156,15 @@ func (s *sched) run(n int, choices []int, settle time.Duration) (factors []int, 
 			continue
 		}
 		step := len(factors)
-		c := 0
-		if step < len(choices) {
-			c = choices[step] % len(enabled)
+		s.mu.Lock()
+		ops := map[int]string{}
+		for _, e := range enabled {
+			ops[e] = s.op[e]
+		}
+		s.mu.Unlock()
+		c := choose(step, enabled, ops)
+		if c < 0 || c >= len(enabled) {
+			c = 0
 		}
 		factors = append(factors, len(enabled))
 		tid := enabled[c]
@@ -216,6 +259,9 @@ func scenarioConcSel(t *traceWriter, rng *rand.Rand, onlyMultiLog bool) {
 		{"firstUse3", nil, func(ls []*logDef) []*creq {
 			return []*creq{upd(ls[0], tr, 0, 8), upd(ls[0], f5, 0, 6), read(ls[0])}
 		}},
+		{"updateTwoReads", store5, func(ls []*logDef) []*creq {
+			return []*creq{read(ls[0]), upd(ls[0], tr, 5, 8), read(ls[0])}
+		}},
 	}
 	if onlyMultiLog {
 		store5b := func(s *session, ls []*logDef) {
@@ -245,7 +291,7 @@ func scenarioConcSel(t *traceWriter, rng *rand.Rand, onlyMultiLog bool) {
 			count := 0
 			for {
 				execNo++
-				factors, hung := runConcExec(t, execNo, storeKind, scratch, c, key, wkeys, choices)
+				factors, hung := runConcExec(t, execNo, storeKind, scratch, c, key, wkeys, choices, nil)
 				count++
 				if hung || count >= limit {
 					break
@@ -274,7 +320,71 @@ func scenarioConcSel(t *traceWriter, rng *rand.Rand, onlyMultiLog bool) {
 				nc[next]++
 				choices = nc
 			}
-			t.line("# conc case=%s store=%s schedules=%d", c.name, storeKind, count)
+			// one-preemption family: thread p runs up to its k-th yield point, then the others run to completion one
+			// after the other (in every order), then p finishes.  A request blocked on something that is not a storage
+			// call (a mutex, a flight it joined, the single SQL connection) just stays in flight.
+			nreq := len(c.reqs([]*logDef{{origin: "x", key: key}, {origin: "y", key: key}}))
+			fam := 0
+			hungFam := false
+			for p := 0; p < nreq && !hungFam; p++ {
+				var others []int
+				for o := 0; o < nreq; o++ {
+					if o != p {
+						others = append(others, o)
+					}
+				}
+				perms := [][]int{others}
+				if len(others) == 2 {
+					perms = append(perms, []int{others[1], others[0]})
+				}
+				for k := 1; k <= 7 && !hungFam; k++ {
+					for _, perm := range perms {
+						if fam >= limit {
+							break
+						}
+						passed := 0
+						p, k, perm := p, k, perm
+						ch := func(step int, enabled []int, _ map[int]string) int {
+							idx := func(t int) int {
+								for i, e := range enabled {
+									if e == t {
+										return i
+									}
+								}
+								return -1
+							}
+							if passed < k {
+								if i := idx(p); i >= 0 {
+									passed++
+									return i
+								}
+							}
+							for _, o := range perm {
+								if i := idx(o); i >= 0 {
+									return i
+								}
+							}
+							return 0
+						}
+						execNo++
+						_, hung := runConcExec(t, execNo, storeKind, scratch, c, key, wkeys, nil, ch)
+						fam++
+						if hung {
+							hungFam = true
+							break
+						}
+					}
+				}
+			}
+			// random schedules
+			rnd := 0
+			for ; rnd < limit/2 && !hungFam; rnd++ {
+				execNo++
+				if _, hung := runConcExec(t, execNo, storeKind, scratch, c, key, wkeys, nil, func(_ int, enabled []int, _ map[int]string) int { return rng.Intn(len(enabled)) }); hung {
+					break
+				}
+			}
+			t.line("# conc case=%s store=%s schedules=%d preempt=%d random=%d", c.name, storeKind, count, fam, rnd)
 		}
 	}
 	runAll("mem", cases, maxSched)
@@ -320,6 +430,10 @@ func buildConc(t *traceWriter, execNo int, storeKind, scratch string, key logKey
 }
 
 func (s *session) threadWitness(inner persistence.LogStatePersistence, ctl *lspCtl, tid int) *witness.Witness {
+	return s.threadWitnessF(inner, ctl, func() int { return tid })
+}
+
+func (s *session) threadWitnessF(inner persistence.LogStatePersistence, ctl *lspCtl, tidF func() int) *witness.Witness {
 	known := map[string]witness.LogInfo{}
 	for _, l := range s.logs {
 		known[l.id] = witness.LogInfo{SigV: l.rv, Origin: l.origin, Hasher: rfc6962.DefaultHasher}
@@ -328,7 +442,7 @@ func (s *session) threadWitness(inner persistence.LogStatePersistence, ctl *lspC
 	for _, k := range s.wkeys {
 		signers = append(signers, k.signer)
 	}
-	w, err := witness.New(witness.Opts{Persistence: &wrapLSP{inner: inner, ctl: ctl, tid: func() int { return tid }}, Signers: signers, KnownLogs: known})
+	w, err := witness.New(witness.Opts{Persistence: &wrapLSP{inner: inner, ctl: ctl, tid: tidF}, Signers: signers, KnownLogs: known})
 	if err != nil {
 		panic(err)
 	}
@@ -388,7 +502,7 @@ func writeLin(t *traceWriter, s *session, execNo int, c concCase, storeKind stri
 	t.line("LIN %s case=%s store=%s init=%s final=%s hung=%d order=%s", s.id, c.name, storeKind, init, final, h, fmt.Sprint(order))
 }
 
-func runConcExec(t *traceWriter, execNo int, storeKind, scratch string, c concCase, key logKey, wkeys []witKey, choices []int) ([]int, bool) {
+func runConcExec(t *traceWriter, execNo int, storeKind, scratch string, c concCase, key logKey, wkeys []witKey, choices []int, ch chooser) ([]int, bool) {
 	s, defs, inner, closeFn := buildConc(t, execNo, storeKind, scratch, key, wkeys)
 	if c.setup != nil {
 		c.setup(s, defs)
@@ -398,18 +512,31 @@ func runConcExec(t *traceWriter, execNo int, storeKind, scratch string, c concCa
 	sc := newSched()
 	ctl := &lspCtl{fail: map[string]bool{}, gate: sc.gate}
 	var clock int64
+	// ONE Witness serves all requests, as in production (anything it keeps in memory is shared between them); the
+	// storage wrapper learns the request a call belongs to from the calling goroutine
+	shared := s.threadWitnessF(inner, ctl, curTid)
 	for i, r := range reqs {
-		w := s.threadWitness(inner, ctl, i)
-		go func(i int, r *creq, w *witness.Witness) {
-			runReq(w, r, &clock)
+		go func(i int, r *creq) {
+			g := gid()
+			tidByG.Store(g, i)
+			defer tidByG.Delete(g)
+			sc.gate(i, "start") // a request may also start after another one has completed (real-time order)
+			runReq(shared, r, &clock)
 			sc.finish(i)
-		}(i, r, w)
+		}(i, r)
 	}
 	settle := 2 * time.Millisecond
 	if storeKind != "mem" {
 		settle = 40 * time.Millisecond
 	}
-	factors, order, ok := sc.run(len(reqs), choices, settle)
+	var factors []int
+	var order []string
+	var ok bool
+	if ch != nil {
+		factors, order, ok = sc.runWith(len(reqs), ch, settle)
+	} else {
+		factors, order, ok = sc.run(len(reqs), choices, settle)
+	}
 	writeLin(t, s, execNo, c, storeKind, init, reqs, order, !ok)
 	s.t.line("END %s", s.id)
 	if ok {
